@@ -191,3 +191,21 @@ open Sig Sig.Search
   let cases := (intTys.filter (fun (T : IntTy) => !T.signed)).flatMap fun S => [f32, f64].flatMap fun F => (boundaryInts S).map fun x => (S, F, x)
   let (n, w) := firstBad cases (fun (S, F, x) => Gen.UnsignedAsFloat_k S F S.w F.bits x != some (u2fK F S.w x)) (fun (S, F, x) => s!"src={repr S} dst-bits={F.bits} x={x}")
   report "SignalGen.Eq.I2F" "UnsignedAsFloat" n w
+
+-- ------------------------------------------------------------------------------------------- SignalGen.Eq.Xfer
+#eval do
+  let srcs : List (List Int) := [[], [1], [1, 2], [1, 2, 3], [1, 2, 3, 4, 5], [1, 2, 3, 4, 5, 6, 7, 8], [300, -300, 70000]]
+  let kinds : List (Kind × Kind) := [(Kind.i16, Kind.i16), (Kind.i32, Kind.i8), (Kind.u8, Kind.i64)]
+  let cases := bufs.flatMap fun b => srcs.flatMap fun s => kinds.map fun k => (b, s, k)
+  let (n, w) := firstBad cases
+    (fun (b, s, (ks, kd)) => !resEq (Gen.Write ks kd heap0 b s) ((write (cvt ks kd) heap0 s b).bind fun h' n => .ok h' (b, (n : Int))))
+    (fun (b, s, (ks, kd)) => s!"Write src={s} dst={repr b} kinds={repr ks},{repr kd}")
+  report "SignalGen.Eq.Xfer" "Write" n w
+#eval do
+  let dsts : List (List Int) := [[], [1], [1, 2], [1, 2, 3], [1, 2, 3, 4, 5], [1, 2, 3, 4, 5, 6, 7, 8]]
+  let kinds : List (Kind × Kind) := [(Kind.i16, Kind.i16), (Kind.i32, Kind.i8), (Kind.u8, Kind.i64)]
+  let cases := bufs.flatMap fun b => dsts.flatMap fun s => kinds.map fun k => (b, s, k)
+  let (n, w) := firstBad cases
+    (fun (b, s, (ks, kd)) => !resEq (Gen.Read ks kd heap0 b s) ((read (cvt ks kd) heap0 b s).bind fun h' r => .ok h' (b, (r.1, (r.2 : Int)))))
+    (fun (b, s, (ks, kd)) => s!"Read dst={s} src={repr b} kinds={repr ks},{repr kd}")
+  report "SignalGen.Eq.Xfer" "Read" n w
